@@ -165,13 +165,13 @@ BOUNDS = {
     'quick': 'transparency: n in [0,3] rows with symbolic None|int cells, ragged rows (0..3 cells), progress batch sizes 1..3, cache '
              'limits {None,1..4}, clock steps 0/1 (zero elapsed time), two full passes, a partial pass of 0..2 rows and a pass after '
              'it; bytes: n in [0,2] rows of text cells from a pool (delimiters, quotes, <&>, non-ASCII, newline, empty, None, int), '
-             'ragged (text/html rectangular), write_header, encodings, dialect, template/prologue/epilogue, caption/vrepr/'
+             'ragged, write_header, encodings, dialect, template/prologue/epilogue, caption/vrepr/'
              'lineterminator, targets path/.gz/MemorySource',
     'thorough': 'one more row',
 }
 OUTSIDE = 'the real wall clock (ClockStub); tee views iterated by two iterators at once (they write to one sink by design)'
 STUBS = ['ClockStub', 'private temp dir (real files)']
-ASSUMPTIONS = ['text cells realise at the C boundary (bounded enumeration)', 'teetext / totext / html on rectangular tables (templates name every field)']
+ASSUMPTIONS = ['text cells realise at the C boundary (bounded enumeration)']
 RULE = 'Jobs case-split (wrapper/format, ragged, target kind); rows, flags and arguments solver-chosen.'
 
 WRAPPERS = ['progress', 'log_progress', 'clock', 'cache', 'wrap', 'teecsv', 'teetsv', 'teepickle', 'teetext', 'teehtml']
@@ -184,15 +184,13 @@ def jobs(tier):
     out = []
     for w in WRAPPERS:
         for ragged in (False, True):
-            if ragged and w in ('teetext', 'teehtml'):
-                continue
+
             out.append(dict(name='transparent/%s/ragged=%d' % (w, ragged), func='transparent',
                             params=dict(wrapper=w, N=N - ragged, ragged=ragged), budget=B))
     for fmt in ('csv', 'tsv', 'pickle', 'text', 'html'):
         for kind in ('path', 'gz', 'memory'):
             for ragged in (False, True):
-                if ragged and fmt in ('text', 'html'):
-                    continue
+
                 out.append(dict(name='bytes/%s/%s/ragged=%d' % (fmt, kind, ragged), func='tee_bytes',
                                 params=dict(fmt=fmt, N=2 if q else 3, ragged=ragged, kind=kind), budget=B))
     return out
